@@ -26,7 +26,8 @@ class P(b1.Plugin):
     driver_traits = (("debug", "Debug"),)
     rule = ("struct/enum definitions with 0-3 fields of leaf types L/S(multi-line pretty output)/F/K; name settings at type and "
             "variant level (default / custom in every spelling / disabled / enabled), named_field at struct and variant level, per "
-            "field ignore / method / rename (only where keys are shown); every value printed with {:?} and {:#?}; parameter-free "
+            "field ignore / method / rename (only where keys are shown); every value printed with {:?} and {:#?}, and with {:7.2?} and {:#7.2?} (the builders hand width and precision on to the "
+            "values only: the model is evaluated with the leaf texts measured under the same specification); parameter-free "
             "definitions are also printed next to a #[derive(Debug)] twin (op dbgd). distinct_nontrivial = definitions with a "
             "non-default setting on which at least two different strings were observed")
 
@@ -95,6 +96,8 @@ class P(b1.Plugin):
                     req["ignore"] = r < (0.2 if u else 0.25)
                     if (0.2 if u else 0.25) <= r < (0.6 if u else 0.5):
                         req["method"] = gen.METHOD_LEAVES.index(f.ty)
+                    if req["ignore"] and rng.random() < 0.2:
+                        req["method"] = gen.METHOD_LEAVES.index(f.ty)  # both: a field switched off that still names its method
                     if named and not req["ignore"] and rng.random() < (0.45 if u else 0.3):
                         req["rename"] = "k_%s" % (f.name or "t")
                 if sysk is not None and v is td.variants[0] and f is v.fields[0]:
@@ -195,6 +198,8 @@ class P(b1.Plugin):
         for a in vs.iter() {{
             println!("[\\"dbg\\",{td.id},{{}},{{}},false,{{}}]", a.0, ju(&a.1), jstr(&format!("{{:?}}", a.2)));
             println!("[\\"dbg\\",{td.id},{{}},{{}},true,{{}}]", a.0, ju(&a.1), jstr(&format!("{{:#?}}", a.2)));
+            println!("[\\"dbg\\",{td.id},{{}},{{}},2,{{}}]", a.0, ju(&a.1), jstr(&format!("{{:7.2?}}", a.2)));
+            println!("[\\"dbg\\",{td.id},{{}},{{}},3,{{}}]", a.0, ju(&a.1), jstr(&format!("{{:#7.2?}}", a.2)));
         }}'''
         if td.plain:
             titems = ", ".join("twin::" + td.value_expr(k, ids) for k, ids in vals)
